@@ -161,6 +161,14 @@ def goodTmpl : Option Agg → Bool
   | some t => good t && isZeroTree t
 end
 
+/-- a weight that is either gated out (`not w > 0`) or finite -/
+def Val.okWeight (w : Val) : Bool := !w.pos || w.isFin
+
+/-- every fill of the stream returns normally and every intermediate state is `good` -/
+def goodRun (t : Agg) : List (Datum × Val) → Bool
+  | [] => good t
+  | dw :: rest => good t && dw.2.okWeight && (fill t dw.1 dw.2).2.isOk && goodRun (fill t dw.1 dw.2).1 rest
+
 /-- Every bin of a sparse container has the static structure of the template. -/
 def binsFollowTmpl : Agg → Bool
   | .node k _ _ tmpl kids => if k.isSparse then sameBaseTmpl tmpl kids else true
